@@ -48,6 +48,9 @@ def gen_req(rnd, k, n, nconn, profile):
     elif k == "Action":
         r.update(eid=ids(), name=rnd.choice(["", "x", "x", "y"]), ats=rnd.choice([-1, 0, 1, 2, 3, 5, 9, 100000]),
                  data=rnd.choice([0, 1, 2]), has=rnd.random() < 0.93)
+        if profile.get("kinds") and "Action" in profile["kinds"] and rnd.random() < 0.6:
+            # dense corner: same entity, same name, few timestamps (equal / older / newer), differing data
+            r.update(eid=rnd.choice([1, 1, 2]), name="x", ats=rnd.choice([2, 2, 2, 3, 1]), has=True)
     elif k == "AssetAdd":
         r.update(eid=ids(), asset=rnd.choice(["", "m", "n"]))
     elif k == "Unknown":
